@@ -19,6 +19,7 @@ import (
 	"errors"
 	"fmt"
 	"io"
+	"math"
 	"net/http"
 	"strconv"
 	"strings"
@@ -421,6 +422,12 @@ func restDecodeTimeout(timeout string) (time.Duration, error) {
 	val, err := strconv.ParseFloat(timeout, 64)
 	if err != nil {
 		return 0, fmt.Errorf("invalid timeout %q: %w", timeout, err)
+	}
+	if math.IsNaN(val) || math.IsInf(val, 0) || val < 0 {
+		return 0, fmt.Errorf("invalid timeout %q: must be a finite, non-negative number of seconds", timeout)
+	}
+	if val >= float64(math.MaxInt64)/float64(time.Second) {
+		return time.Duration(math.MaxInt64), nil
 	}
 	return time.Duration(val * float64(time.Second)), nil
 }
